@@ -851,7 +851,9 @@ theorem asCompleteMem_closed {h0 : Heap MLoc} (fuel : Nat) :
     | ordered s =>
       have := acLoop_closed (asCompleteMem fuel) ih s hm s.len 0 h hp hc
       exact ⟨this.1, this.2, hm⟩
-    | compl m => exact ⟨hp, hc, hm⟩
+    | compl m =>
+      have := ih h m hp hc hm
+      exact ⟨this.1, this.2.1, this.2.2⟩
 
 theorem closed_snoc {n : Nat} {h : Heap MLoc} (hc : Closed n h) {cells : List MLoc}
     (hcells : ∀ c ∈ cells, RefsAbove n c) : Closed n (h ++ [cells]) := by
